@@ -40,10 +40,10 @@ type tierCfg struct {
 var props = map[string]tierCfg{
 	"C07": {QuickRuns: 24000, QuickBudgetS: 40, ThoroughS: 600, Level: "exploration"},
 	"C09": {QuickRuns: 48000, QuickBudgetS: 40, ThoroughS: 600, Level: "exploration"},
-	"C10": {QuickRuns: 4000, QuickBudgetS: 40, ThoroughS: 600, Level: "exploration"},
-	"C14": {QuickRuns: 1600, QuickBudgetS: 40, ThoroughS: 600, Level: "exploration"},
-	"C15": {QuickRuns: 480, QuickBudgetS: 40, ThoroughS: 600, Level: "fault_enumeration"},
-	"C16": {QuickRuns: 6400, QuickBudgetS: 40, ThoroughS: 600, Level: "exploration"},
+	"C10": {QuickRuns: 40000, QuickBudgetS: 40, ThoroughS: 600, Level: "exploration"},
+	"C14": {QuickRuns: 16000, QuickBudgetS: 40, ThoroughS: 600, Level: "exploration"},
+	"C15": {QuickRuns: 1600, QuickBudgetS: 40, ThoroughS: 600, Level: "fault_enumeration"},
+	"C16": {QuickRuns: 32000, QuickBudgetS: 40, ThoroughS: 600, Level: "exploration"},
 	"C19": {QuickRuns: 800, QuickBudgetS: 40, ThoroughS: 600, Level: "exploration"},
 	"C20": {QuickRuns: 48000, QuickBudgetS: 40, ThoroughS: 600, Race: true, RaceQuickRuns: 16000, Level: "exploration"},
 }
